@@ -354,7 +354,7 @@ func runC04(c *Ctx) {
 	walkKeys = []string{"a", "a/a", "a/b", "ab", "b", "b/a", "ba"}
 	sets := keySets(walkKeys, maxSet)
 	c.R.Exhaustive = true
-	c.R.Rule = fmt.Sprintf("exhaustive walks on s3mem: all %d key sets of size ≤ %d over %v (some members delete-marked via a versioned delete), × prefix/delimiter combinations × max-keys 1..n+1 × start markers {none, every key, every proper prefix of a key, '~'} × {V1 (NextMarker or last key), V2 (continuation token, start-after)}; every page is compared with the Lean model; the pages of a walk are concatenated and compared with Spec.Listing's unpaginated listing after the start marker (none skipped/repeated, each common prefix once, page size ≤ max-keys, IsTruncated=false only at the end, termination within n+2 pages); bolt/fs: the fallback path with the unimplemented-page option off and on; non-trivial = distinct walk with at least two pages", len(sets), maxSet, walkKeys)
+	c.R.Rule = fmt.Sprintf("exhaustive walks on s3mem: all %d key sets of size ≤ %d over %v (some members delete-marked via a versioned delete), × prefix/delimiter combinations × max-keys 1..n+1 × start markers {none, every key, every proper prefix of a key, '~'} × {V1 (NextMarker or last key), V2 (continuation token, start-after, and the token together with the repeated start-after)}; every page is compared with the Lean model; the pages of a walk are concatenated and compared with Spec.Listing's unpaginated listing after the start marker (none skipped/repeated, each common prefix once, page size ≤ max-keys, IsTruncated=false only at the end, termination within n+2 pages); bolt/fs: the fallback path with the unimplemented-page option off and on; non-trivial = distinct walk with at least two pages", len(sets), maxSet, walkKeys)
 	combos := []struct{ pfx, d string }{{"", ""}, {"", "/"}, {"a", ""}, {"a", "/"}, {"a/", "/"}, {"b", "/"}}
 	// paginating backend
 	for _, kind := range c.kinds([]string{"mem"}) {
@@ -539,9 +539,18 @@ func c04WalkRaw(c *Ctx, r *Runner, bucket, pfx, d, start, maxKeysQ string, clamp
 	var allC, allP []string
 	var specFull string
 	pages := 0
+	// SDK paginators repeat every parameter of the first request and add the token: a V2 walk that
+	// began with start-after keeps sending it (the token decides where the page starts)
+	keepStartAfter := ""
+	if v2 && start != "" && c.Rng.Intn(2) == 0 {
+		keepStartAfter = start
+	}
 	for {
 		q := ListReq{Bucket: bucket, HasPrefix: pfx != "", Prefix: pfx, HasDelim: d != "", Delim: d,
 			MarkerKind: markerKind, Marker: marker, MaxKeys: maxKeysQ, V2: v2, ClampedMaxKeys: clamped}
+		if markerKind == "token" {
+			q.AlsoStartAfter = keepStartAfter
+		}
 		line, lo := r.List(q)
 		_, spec := r.judgeProj(line, lo.Obs, "c04:page", ident, nil)
 		if !lo.OK {
